@@ -211,7 +211,7 @@ impl Family for C12 {
             let nbytes = (rng.usize_range(2, 48) * wb / 8).min(320);
             let pi = rng.below(5) as usize;
             let image = gen_image(rng, PATTERNS[pi], nbytes);
-            let bsel = rng.below(6);
+            let bsel = rng.below(8);
             let backend = crate::p02::gen_rd_backend(rng, bsel, 0, 0);
             let zero_ext = backend.zero_extended();
             let total = nbytes * 8;
